@@ -438,21 +438,21 @@ func nilFactAt(v ssa.Value, at ssa.Instruction, wantNonNil bool) bool {
 func storeBetween(addr ssa.Value, from, to ssa.Instruction) bool {
 	hit := false
 	escaped := addrEscapes(addr)
+	// paths from the check to the use that do not re-execute the check (which
+	// would re-establish the fact)
+	again := func(in ssa.Instruction) bool { return in == from }
 	WalkFrom(from, func(in ssa.Instruction) bool {
-		if in == to {
+		if in == to || in == from {
 			return false
 		}
 		switch s := in.(type) {
 		case *ssa.Store:
-			if SameAddr(s.Addr, addr) {
-				// only relevant if `to` is reachable from here
-				if Reachable(in, to, nil) {
-					hit = true
-				}
+			if SameAddr(s.Addr, addr) && Reachable(in, to, again) {
+				hit = true
 			}
 		case ssa.CallInstruction:
 			if escaped {
-				if _, isDefer := in.(*ssa.Defer); !isDefer && callMayWrite(s, addr) && Reachable(in, to, nil) {
+				if _, isDefer := in.(*ssa.Defer); !isDefer && callMayWrite(s, addr) && Reachable(in, to, again) {
 					hit = true
 				}
 			}
